@@ -2,13 +2,16 @@
 
 Static necessary conditions: writer/reader agreement on tag, indentation and column->field per row kind (incl. optional
 target name), sorted emission (order taint + key totality), pre-order nesting, prefix strip <=> re-attachment, comment
-split <=> join, placement of every class in exactly one file.
+split <=> join, placement of every class in exactly one file, token flow split -> fields without loss (R12.6), directory walk that
+lets every mapping file reach the file reader (R12.7).
 """
 import json
 import os
 
 from lib import hir as H
 from lib import c03_util as U
+from lib import c12_util as U12
+from lib import boolform as B
 
 SPEC = os.path.join(os.path.dirname(os.path.dirname(os.path.abspath(__file__))), "spec", "enigma.json")
 EF = "quill::enigma_file::"
@@ -24,13 +27,21 @@ CLAIM = {
             "the recursion hands the full names on, `<init>` target suppressed, comment split('\\n') <=> push('\\n') + join(separator), "
             "COMMENT lines exempt from # stripping and trimming, tokeniser white space that is not the join separator; R12.4 every class "
             "goes either under its parent (parent is in the set) or into its own file, the node carries key and value of the same entry, "
-            "file names collide => error, file extension equal on both sides; R12.5 no Result discarded, insertion only through add_*.",
+            "file names collide => error, file extension equal on both sides; R12.5 no Result discarded, insertion only through add_*; "
+            "R12.6 token flow of EnigmaLine::new: the row is cut by one `split(<set>)` (empty pieces kept), only the leading tag is taken "
+            "off, every adaptor/consumer between the split and `fields` keeps all pieces unchanged and in order (map(to_owned-like), "
+            "collect, ..; filter/dedup/split_whitespace/.. are reported by name), callers pass the row text as read; R12.7 directory "
+            "walk: WalkDir rooted at the path argument, only non-restricting walk options, every iterator stage up to the reading loop "
+            "accounted for, `not a directory and extension == mapping` implies the entry reaches read_file_into (truth table over "
+            "is_dir / extension / opaque atoms, iterator chain or for loop, helper predicates inlined), no directory is read, a "
+            "filter_entry predicate holds for all directories and mapping files, the writer sets the extension unconditionally.",
     "note": "Not decided: round-trip equality of contents, target names that do not follow the nesting, file-system effects. Known "
             "findings: inner-class prefix stripped for a class written at the top of a file (outer class absent); two classes with the "
             "same file name overwrite each other; tab/VT/FF/CR inside a comment become a blank. Trusted: rustc HIR/typeck/const-eval, "
             "FormatArgs templates, spec/enigma.json, std/indexmap/walkdir semantics of the named calls.",
     "technique": "static analysis: text-layout extraction from write! templates vs. slice-pattern arms (typed place provenance), order "
-                 "taint, structural decision tables, guard dominance",
+                 "taint, structural decision tables, guard dominance, sequence-adaptor classification of the tokeniser, boolean "
+                 "keep-condition of the directory walk",
 }
 
 
@@ -44,11 +55,15 @@ def run(F, R, tier):
     r12_3(q, R, cx, spec)
     r12_4(q, R, cx, spec)
     r12_5(q, R, cx)
+    r12_6(q, R, spec)
+    r12_7(q, R, spec)
     return ("text-layout extraction: write_class's write!/writeln! templates are cut into rows/columns with every hole traced to the "
             "(ADT, field) it prints and every optional column to its condition; read_into/parse_class are abstracted to indentation "
             "levels, tag dispatch over the evaluated constants and, per slice-pattern arm, the column each struct field is taken from; "
             "compared with each other and spec/enigma.json. Plus order taint and sort-key totality, queue discipline of the nesting "
-            "walk, prefix strip/re-attach provenance, comment split/join, placement table of figure_out_files.")
+            "walk, prefix strip/re-attach provenance, comment split/join, placement table of figure_out_files. Token flow of the line "
+            "tokeniser (which adaptors touch the pieces between split and fields) and the keep-condition of the directory walk as a "
+            "boolean formula compared by truth table with `!is_dir && extension == mapping`.")
 
 
 class Cx:
@@ -664,17 +679,17 @@ def r12_2(q, R, cx, spec):
     # ---- enigma_dir::read_
     rd = dir_read_worker(q)
     if R.anchor("R12.2", "directory reader (enigma_dir::read or the function it delegates to) with the WalkDir", rd):
+        # the options set on the WalkDir before it is iterated (explicit into_iter or a `for` loop)
         chain = []
         for n in H.walk(rd["body"]):
-            if n.get("k") == "mcall" and n["name"] == "into_iter":
-                x = H.peel(n["recv"])
-                while x.get("k") == "mcall":
-                    chain.append(x["name"])
-                    x = H.peel(x["recv"])
-                if x.get("k") == "call" and "WalkDir" in ((x.get("callee") or {}).get("path") or ""):
-                    chain.append("WalkDir::new")
+            if n.get("k") == "call" and (H.callee_path(n) or "").endswith("WalkDir::new"):
+                chain.append("WalkDir::new")
+                for name, node in U12.climb(rd["body"], n)[0]:
+                    if not ((node.get("callee") or {}).get("path") or "").startswith("walkdir::WalkDir::") or name == "into_iter":
+                        break
+                    chain.append(name)
         R.inst("R12.2", "dir-walk-sorted", "WalkDir::new" in chain and any(c in ("sort_by_file_name", "sort_by", "sort_by_key") for c in chain), sp=rd["sp"],
-               expect="WalkDir::new(path).sort_by_file_name().into_iter()", got=list(reversed(chain)))
+               expect="WalkDir::new(path).sort_by_file_name().into_iter()", got=chain)
     R.floor("R12.2", 14)
 
 
@@ -1116,11 +1131,15 @@ def r12_4(q, R, cx, spec):
     if R.anchor("R12.4", "fn enigma_dir::write", dw) and R.anchor("R12.4", "directory reader with the WalkDir", dr):
         wext = [H.const_name(n["args"][0]) for n in H.walk(dw["body"]) if n.get("k") == "mcall" and n["name"] == "set_extension"]
         rext = []
-        for n in H.walk(dr["body"]):
-            if n.get("k") == "bin" and n["op"] == "==":
-                for x in (n["l"], n["r"]):
-                    if H.const_name(x):
-                        rext.append((H.const_name(x), H.const_value(x)))
+        # the comparison may sit in a predicate function of the crate that the reader calls
+        scopes = [dr["body"]] + [q.by_key[k]["body"] for k in sorted(set((x.get("callee") or {}).get("key") for x in H.walk(dr["body"]) if x.get("k") == "call")
+                                                                   & set(q.by_key)) if q.by_key[k].get("output") == "bool"]
+        for sc in scopes:
+            for n in H.walk(sc):
+                if n.get("k") == "bin" and n["op"] in ("==", "!="):
+                    for x in H.walk(n):
+                        if H.const_name(x):
+                            rext.append((H.const_name(x), H.const_value(x)))
         ok = len(wext) == 1 and len(rext) == 1 and wext[0] == rext[0][0] and rext[0][1] == spec["file_extension"]
         R.inst("R12.4", "dir:extension", ok, sp=dw["sp"], expect="set_extension(MAPPING_EXTENSION) / extension == MAPPING_EXTENSION == %r" % spec["file_extension"],
                got={"write": wext, "read": rext})
@@ -1188,3 +1207,182 @@ def r12_5(q, R, cx):
             built = ch.root[0] == "struct" and U.short(ch.root[1].get("adt")) == info and any(x is ch.root[1] for x in H.walk(rr["body"]))
             R.inst("R12.5", "read:adds-own-row:%s" % rr["adds"], built, sp=call.get("sp"), expect="node built from the %s literal of the same row" % info, got=ch.show())
     R.floor("R12.5", 14 + 9)
+
+
+# ------------------------------------------------------------------------------------------------ R12.6
+def r12_6(q, R, spec):
+    R.rule("R12.6", "the text of a row reaches the line record piece by piece: EnigmaLine::new cuts the row with `split(<set>)` (one "
+                    "piece between every two separators, empty pieces included), exactly the first piece (the tag) is taken off, and "
+                    "every other piece arrives in `fields` unchanged and in order - no adaptor in between that can drop, merge, rewrite "
+                    "or reorder pieces; every caller hands the row text over as it was read.  COMMENT rows are rebuilt by joining the "
+                    "pieces with the separator (R12.3), so a dropped empty piece is a lost blank of the comment")
+    nw = q.fn("new", impl_ty="EnigmaLine")
+    if not R.anchor("R12.6", "fn EnigmaLine::new", nw):
+        R.floor("R12.6", 6)
+        return
+    root = nw["body"]
+    lits = [n for n in H.walk(root) if n.get("k") == "struct" and U.short(n.get("adt")) == "EnigmaLine"]
+    fl = {f["name"]: f["e"] for f in lits[0]["fields"]} if len(lits) == 1 else {}
+    if not R.anchor("R12.6", "the one EnigmaLine { first_field, fields, .. } literal of EnigmaLine::new", "fields" in fl and "first_field" in fl, sp=nw["sp"]):
+        R.floor("R12.6", 6)
+        return
+    ops = U12.token_ops(root, fl["fields"])
+    seen = {}
+    for o in ops:
+        seen[o["name"]] = seen.get(o["name"], 0) + 1
+        key = "tokens:%s:%s" % ("source" if o["cls"] == "source" else "op", o["name"]) + ("" if seen[o["name"]] == 1 else "#%d" % seen[o["name"]])
+        R.inst("R12.6", key, o["cls"] in ("source", "keep", "front"), sp=o["node"].get("sp"),
+               expect="split(<separator set>) as the source; afterwards only adaptors that keep every piece (map(to_owned), collect, ..) "
+                      "and the removal of the leading tag",
+               got=o["why"] or H.render(o["node"])[:100],
+               detail="every piece of a COMMENT row, empty ones included, is part of the comment text: `a  b` is cut into [a, \"\", b] "
+                      "and joined back with the separator")
+    srcs = [o for o in ops if o["cls"] == "source"]
+    front = sum(o["n"] for o in ops if o["cls"] == "front")
+    unknown = [o for o in ops if o["cls"] == "unknown"]
+    R.inst("R12.6", "tokens:one-split-source", len(srcs) == 1 and ops and ops[0] is srcs[0] and not unknown, sp=nw["sp"],
+           expect="`fields` is fed by exactly one `<row text>.split(..)`", got=[(o["name"], o["cls"]) for o in ops])
+    R.inst("R12.6", "tokens:only-the-tag-removed", front == 1, sp=nw["sp"], expect="exactly one leading piece (the tag) is taken off the sequence",
+           got="%d leading pieces removed" % front)
+    org = U12.first_piece_origin(root, fl["first_field"])
+    taken = [o["node"] for o in ops if o["cls"] == "front" and o["name"] != "skip"]
+    ok_tag = org is not None and any(org is t for t in taken)
+    if not ok_tag and org is not None and [o for o in ops if o["name"] == "skip" and o["n"] == 1]:
+        # `first_field` from its own `split(..).next()` over the same text, `fields` from `split(..).skip(1)`
+        o2 = U12.token_ops(root, org["recv"])
+        ok_tag = len(o2) >= 1 and o2[0]["cls"] == "source" and srcs and H.local_of(o2[0]["node"]["recv"]) == H.local_of(srcs[0]["node"]["recv"]) \
+            and H.render(o2[0]["node"]["args"][0]) == H.render(srcs[0]["node"]["args"][0]) and all(o["cls"] in ("source", "keep") for o in o2)
+    R.inst("R12.6", "tokens:tag-is-the-removed-piece", ok_tag, sp=nw["sp"], expect="first_field is the piece taken off the front of the same sequence",
+           got=H.render(org)[:80] if org else None)
+    # callers
+    n_call = 0
+    for b in q.bodies:
+        for n in H.walk(b["body"]):
+            if n.get("k") == "call" and (n.get("callee") or {}).get("key") == nw["key"] and len(n["args"]) == 2:
+                n_call += 1
+                ok, calls = U12.raw_text_arg(n["args"][1])
+                R.inst("R12.6", "row-text-unchanged:%s" % b["path"].replace("quill::", "", 1), ok, sp=n.get("sp"),
+                       expect="EnigmaLine::new(n, &<the line as read>)", got=calls or H.render(n["args"][1])[:60])
+    R.anchor("R12.6", "a caller of EnigmaLine::new", n_call >= 1, sp=nw["sp"])
+    R.floor("R12.6", 6)
+
+
+# ------------------------------------------------------------------------------------------------ R12.7
+def r12_7(q, R, spec):
+    R.rule("R12.7", "directory walk: the reader walks the tree below the path it is given without restriction (no depth limit, no "
+                    "entry filter, no skipped or truncated prefix); between WalkDir::new and the call that reads a file an entry is "
+                    "kept whenever it is not a directory and its extension is the mapping extension, and never when it is a directory; a filter_entry predicate "
+                    "holds for every directory and every mapping file; the writer puts that extension on every file it creates")
+    rd = dir_read_worker(q)
+    if not R.anchor("R12.7", "directory reader (enigma_dir::read or the function it delegates to) with the WalkDir", rd):
+        R.floor("R12.7", 4)
+        return
+    root = rd["body"]
+    news = [n for n in H.walk(root) if n.get("k") == "call" and (H.callee_path(n) or "").endswith("WalkDir::new")]
+    if not R.anchor("R12.7", "exactly one WalkDir::new(..) in the directory reader", len(news) == 1, sp=rd["sp"]):
+        R.floor("R12.7", 4)
+        return
+    new = news[0]
+    # ---- root of the walk: the path parameter
+    pids = H.param_ids(rd)
+    a = H.peel(new["args"][0], tries=True)
+    calls = []
+    for _ in range(6):
+        if a.get("k") == "mcall" and not a["args"]:
+            calls.append(a["name"])
+            a = H.peel(a["recv"], tries=True)
+        elif H.local_of(a) and H.local_of(a)[0] not in pids and H.let_init_of(root, H.local_of(a)[0]) is not None:
+            a = H.peel(H.let_init_of(root, H.local_of(a)[0]), tries=True)
+        else:
+            break
+    loc = H.local_of(a)
+    R.inst("R12.7", "dir-walk:root-is-the-given-path", loc is not None and loc[0] in pids and all(c in U12.PATH_CONV for c in calls), sp=new.get("sp"),
+           expect="WalkDir::new(<path parameter>)", got=H.render(new["args"][0])[:80])
+    # ---- stages
+    M = U12.WalkModel(q, spec["file_extension"])
+    stages, term = U12.climb(root, new)
+    keep = []                 # conjuncts of "the entry reaches the reading call"
+    terminal = None
+    seen = {}
+    readers = set(b["key"] for b in [q.fn("read_file_into", within=EF), q.fn("read_into", within=EF + "read_into")] if b)
+
+    def closure_arg(node):
+        cls = [H.peel(x) for x in node["args"] if H.peel(x).get("k") == "closure"]
+        return cls[-1] if cls else None
+
+    for name, node in stages:
+        if terminal is not None:
+            break
+        seen[name] = seen.get(name, 0) + 1
+        key = "dir-walk:stage:%s" % name + ("" if seen[name] == 1 else "#%d" % seen[name])
+        cp = (node.get("callee") or {}).get("path") or ""
+        sp = node.get("sp")
+        if cp.startswith("walkdir::WalkDir::") and name != "into_iter":
+            ok = name in U12.WALK_BUILDER_OK or (name == "min_depth" and isinstance(H.const_value(node["args"][0]), int) and H.const_value(node["args"][0]) <= 1)
+            R.inst("R12.7", key, ok, sp=sp, expect="walk options that do not restrict the set of entries (sort_by*, follow_links, max_open, ..)",
+                   got=H.render(node)[-70:], detail="classes live in packages at any depth; every file below the root has to be visited")
+        elif name == "filter_entry":
+            cl = closure_arg(node)
+            f = M.F(cl["body"]) if cl else M.opaque(node)
+            keep.append(f)
+            ok1, cex1 = U12.implies(("atom", "is_dir"), f, U12.entry_constraint)
+            ok2, cex2 = U12.implies(("and", ("not", ("atom", "is_dir")), ("atom", "ext")), f, U12.entry_constraint)
+            ok = ok1 and ok2
+            R.inst("R12.7", "dir-walk:filter_entry-keeps-directories-and-mapping-files", ok, sp=sp,
+                   expect="predicate true for every directory (filter_entry also prunes the subtree, and it is applied to the root) and every mapping file",
+                   got={"predicate": B.show(f), "directory that is pruned (with everything below it)": cex1, "mapping file that is skipped": cex2},
+                   detail="WalkDir::filter_entry skips the entry and, for a directory, everything below it; depth 0 (the path handed to read) is filtered too")
+        elif name == "filter":
+            cl = closure_arg(node)
+            f = M.F(cl["body"]) if cl else M.opaque(node)
+            keep.append(f)
+            R.inst("R12.7", key, True, sp=sp, nontrivial=False, got=B.show(f))
+        elif name == "filter_map":
+            cl = closure_arg(node)
+            f = M.Y(cl["body"]) if cl else M.opaque(node)
+            keep.append(f)
+            R.inst("R12.7", key, True, sp=sp, nontrivial=False, got=B.show(f))
+        elif name in U12.ITER_TERMINAL:
+            terminal = ("closure", closure_arg(node), node)
+            R.inst("R12.7", key, terminal[1] is not None, sp=sp, nontrivial=False)
+        elif name in U12.ITER_PASS:
+            R.inst("R12.7", key, True, sp=sp, nontrivial=False)
+        else:
+            R.inst("R12.7", key, False, sp=sp, expect="between WalkDir::new and the reading loop only sort/into_iter/map/inspect and filters that are "
+                   "accounted for in dir-walk:every-mapping-file-read", got=H.render(node)[-70:],
+                   detail="`%s` can remove entries from the walk" % name)
+    if terminal is None and term and term[0] == "for":
+        terminal = ("for", term[1]["body"], term[1])
+    if R.anchor("R12.7", "reading loop of the walk (for / try_fold / try_for_each over the entries)", terminal is not None and terminal[1] is not None, sp=rd["sp"]):
+        scope = terminal[1]["body"] if terminal[0] == "closure" else terminal[1]
+        calls = [n for n in H.walk(scope) if n.get("k") == "call" and (n.get("callee") or {}).get("key") in readers]
+        if R.anchor("R12.7", "exactly one call of enigma_file::read_file_into / read_into in the reading loop", len(calls) == 1, sp=terminal[2].get("sp")):
+            keep.extend(M.reach(scope, calls[0]))
+            K = U12.conj(keep)
+            ref = ("and", ("not", ("atom", "is_dir")), ("atom", "ext"))
+            ok, cex = U12.implies(ref, K, U12.entry_constraint)
+            R.inst("R12.7", "dir-walk:every-mapping-file-read", ok, sp=calls[0].get("sp"),
+                   expect="!is_dir && extension == %r  =>  the entry reaches the reading call" % spec["file_extension"],
+                   got={"read when": B.show(K), "mapping file that is skipped": cex},
+                   detail="the writer creates <root>/<package dirs>/<Class>.%s for every top-level class; each of them has to reach the "
+                          "reader whatever its name or depth" % spec["file_extension"])
+            ok, cex = U12.implies(K, ("not", ("atom", "is_dir")), U12.entry_constraint)
+            R.inst("R12.7", "dir-walk:no-directory-read", ok, sp=calls[0].get("sp"), expect="a directory (the root, a package) is never handed to the file reader",
+                   got={"read when": B.show(K), "directory that is read": cex})
+    # ---- writer: the extension is put on every created file
+    dw = q.fn("write", within="quill::enigma_dir::write")
+    if R.anchor("R12.7", "fn enigma_dir::write", dw):
+        wroot = dw["body"]
+        sets = [n for n in H.walk(wroot) if n.get("k") == "mcall" and n["name"] == "set_extension"]
+        creates = [n for n in H.walk(wroot) if n.get("k") == "call" and (H.callee_path(n) or "").endswith(("File::create", "File::create_new"))]
+        ok, got = False, None
+        if len(sets) == 1 and len(creates) == 1:
+            conds = [c for c in H.path_conditions(wroot, sets[0]) if c[0] != "after-exit"]
+            order = [id(x) for x in H.walk(wroot)]
+            l1, l2 = H.local_of(sets[0]["recv"]), H.local_of(creates[0]["args"][0])
+            ok = not conds and l1 is not None and l2 is not None and l1[0] == l2[0] and order.index(id(sets[0])) < order.index(id(creates[0])) \
+                and H.const_value(sets[0]["args"][0]) == spec["file_extension"]
+            got = {"conditions": [(k, H.render(c)[:50], p) for k, c, p in conds], "set_extension on": l1, "File::create of": l2}
+        R.inst("R12.7", "dir-write:extension-on-every-file", ok, sp=dw["sp"],
+               expect="target.set_extension(MAPPING_EXTENSION) unconditionally, before File::create(&target)", got=got)
+    R.floor("R12.7", 4)
